@@ -5,6 +5,8 @@ import (
 	"context"
 	"errors"
 	"fmt"
+	"io"
+	"os"
 	"runtime"
 	"strings"
 	"sync"
@@ -16,6 +18,7 @@ import (
 	"github.com/ThreeDotsLabs/watermill/components/requestreply"
 	"github.com/ThreeDotsLabs/watermill/message"
 	"github.com/ThreeDotsLabs/watermill/pubsub/gochannel"
+	pkgerrors "github.com/pkg/errors"
 
 	"verifharness/vlib"
 )
@@ -47,7 +50,105 @@ func (emptyErr) Error() string { return "" }
 // error values a failing handler returns
 var errKinds = []string{"named", "named", "named", "named", "empty", "empty", "typed-empty", "space", "blank", "long", "one", "true", "zero"}
 
+// Error VALUES a failing handler returns (dimension "error values", drawn from its own PRNG stream): what the error is - which
+// sentinel it is or wraps, what its Is / Unwrap / Timeout methods say, whether it is a typed nil pointer - must not matter: the
+// handler returned a non-nil error, so one reply with that error text is published for the invocation and the command is settled
+// as AckCommandErrors says. The command message's context is alive in every one of these cases.
+var errValueKinds = []string{
+	"ctx-canceled", "wrap-ctx-canceled", "wrap-ctx-canceled", "pkg-wrap-ctx-canceled", "joined-ctx-canceled", "empty-wrap-ctx-canceled",
+	"ctx-deadline", "wrap-ctx-deadline", "os-deadline", "io-eof", "wrap-io-eof", "wrap-closed-pipe",
+	"is-anything", "is-anything", "as-anything", "typed-nil", "reply-timeout-value", "reply-unmarshal-value", "handler-error-value",
+}
+
+// isAnything claims to be every error (an over-eager Is method).
+type isAnything struct{ text string }
+
+func (e isAnything) Error() string { return e.text }
+func (isAnything) Is(error) bool   { return true }
+func (isAnything) Timeout() bool   { return true }
+func (isAnything) Temporary() bool { return true }
+func (e isAnything) Unwrap() []error {
+	return []error{context.Canceled, context.DeadlineExceeded, io.EOF}
+}
+
+// silentWrap wraps an error and has an empty text.
+type silentWrap struct{ inner error }
+
+func (silentWrap) Error() string   { return "" }
+func (e silentWrap) Unwrap() error { return e.inner }
+
+// ptrErr is an error type with pointer receiver: a typed nil pointer of it is a non-nil error.
+type ptrErr struct{ text string }
+
+func (e *ptrErr) Error() string {
+	if e == nil {
+		return "typed nil error"
+	}
+	return e.text
+}
+
+// asAnything lets errors.As fill in a context / time-out flavoured target.
+type asAnything struct{ text string }
+
+func (e asAnything) Error() string { return e.text }
+func (e asAnything) As(target any) bool {
+	switch t := target.(type) {
+	case *requestreply.ReplyTimeoutError:
+		*t = requestreply.ReplyTimeoutError{Err: context.Canceled}
+		return true
+	case *requestreply.ReplyUnmarshalError:
+		*t = requestreply.ReplyUnmarshalError{Err: io.EOF}
+		return true
+	}
+	return false
+}
+
+func handlerErrorValue(c *Cmd, att int) error {
+	text := fmt.Sprintf("handler failed for %s attempt %d", c.ID, att)
+	switch c.ErrKind {
+	case "ctx-canceled":
+		return context.Canceled
+	case "wrap-ctx-canceled":
+		return fmt.Errorf("%s : stock lookup gave up: %w", text, context.Canceled)
+	case "pkg-wrap-ctx-canceled":
+		return pkgerrors.Wrap(context.Canceled, text+" ")
+	case "joined-ctx-canceled":
+		return errors.Join(errors.New(text+" "), context.Canceled, io.ErrUnexpectedEOF)
+	case "empty-wrap-ctx-canceled":
+		return silentWrap{inner: context.Canceled}
+	case "ctx-deadline":
+		return context.DeadlineExceeded
+	case "wrap-ctx-deadline":
+		return fmt.Errorf("%s : downstream call: %w", text, context.DeadlineExceeded)
+	case "os-deadline":
+		return fmt.Errorf("%s : %w", text, os.ErrDeadlineExceeded)
+	case "io-eof":
+		return io.EOF
+	case "wrap-io-eof":
+		return fmt.Errorf("%s : reading the body: %w", text, io.EOF)
+	case "wrap-closed-pipe":
+		return fmt.Errorf("%s : %w", text, io.ErrClosedPipe)
+	case "is-anything":
+		return isAnything{text: text + " (claims to be every error)"}
+	case "as-anything":
+		return asAnything{text: text + " (fills every errors.As target)"}
+	case "typed-nil":
+		return (*ptrErr)(nil)
+	case "reply-timeout-value":
+		// what a handler that made a request of its own may pass on
+		return requestreply.ReplyTimeoutError{Duration: time.Second, Err: fmt.Errorf("%s : %w", text, context.Canceled)}
+	case "reply-unmarshal-value":
+		return requestreply.ReplyUnmarshalError{Err: errors.New(text + " ")}
+	case "handler-error-value":
+		return requestreply.CommandHandlerError{Err: fmt.Errorf("%s : %w", text, context.Canceled)}
+	}
+	return nil
+}
+
 func handlerError(c *Cmd, att int) error {
+	if e := handlerErrorValue(c, att); e != nil {
+		return e
+	}
 	switch c.ErrKind {
 	case "empty":
 		return errors.New("")
@@ -144,6 +245,8 @@ func init() {
 			"the caller then does nothing at all (an error: SendWithReply gives it nothing to cancel, with SendWithReplies it ignores the other results by convention), or (30%) sends the command again without fault and goes on as scripted; after a panic it recovers and ends its context late (no retry) or when it is done (retry). " +
 			"Reply-publish faults x ReplyPublishErrorHandler x handler outcome x AckCommandErrors (own PRNG stream derived from (seed, case index), so the earlier dimensions of a case are unchanged): half of the cases configure PubSubBackendConfig.ReplyPublishErrorHandler; the reply publisher rejects the reply of scripted handler attempts (35% of the handled commands: attempt 1 with p=0.7, 2 with p=0.4, 3 with p=0.2, at least one; per handler with fan-out; plus the earlier 'first reply of a succeeding command' fault), so that the rejected reply is that of a failed or of a successful handler call; " +
 			"the ReplyPublishErrorHandler answers per (command, attempt) nil (the lost reply is tolerated) or an error (the publish error itself or an unrelated one); expected handler calls and replies per command follow from simulating the script (a command whose every reply is lost and tolerated has no reply at all: its caller ends by its context / the time-out). " +
+			"Error values x AckCommandErrors (own PRNG stream derived from (seed, case index)): 35% of the handled commands have a failing handler (1..3 failures, or - with AckCommandErrors=true, 30% of them - a failure on EVERY invocation) whose error VALUE is one of {context.Canceled, %w / pkg/errors.Wrap / errors.Join around context.Canceled, an error with empty text that unwraps to context.Canceled, context.DeadlineExceeded plain and wrapped, wrapped os.ErrDeadlineExceeded, io.EOF plain and wrapped, wrapped io.ErrClosedPipe, an error whose Is method answers true for every target (and that has Timeout/Temporary/Unwrap []error), an error whose As method fills ReplyTimeoutError / ReplyUnmarshalError targets, " +
+			"a typed nil pointer of an error type, requestreply.ReplyTimeoutError / ReplyUnmarshalError / CommandHandlerError values} while the command message's context is alive: what the error is must not matter - one reply per invocation carrying that error text, settlement as AckCommandErrors says (the clauses below; a command redelivered more than 60 times is runaway-redelivery, which is how a nack of an always-failing command under AckCommandErrors=true shows up). " +
 			"Oracle: every reply a caller receives belongs to its own command (the notification the reply exposes is the one the backend published for a delivery of that command; result id / error text when they name a command) and carries exactly what the handler returned for that delivery: error present iff the handler returned one (reply-error-lost / reply-error-invented), the same error text (reply-error-text), the same result (reply-result); a caller that reads until it has them (promptly or late) gets every reply produced for its command as long as neither a time-out nor a context deadline can end the listening first (reply-missing / reply-lost-while-not-reading when it waits for ever at quiescence); the command message is unsettled when its reply is published (settled-before-reply-published) and at quiescence every single delivery of every command is settled cell by cell as the statement and the godoc of PubSubBackendConfig say: reply published -> ack, nack iff the handler failed and AckCommandErrors=false (command-settlement); reply publish failed and no ReplyPublishErrorHandler configured ('Command will be nacked by default when sending reply fails') or it returned an error ('If it returns an error the command will be nacked') -> nack, never ack (acked-without-reply); " +
 			"reply publish failed and the ReplyPublishErrorHandler returned nil -> the lost reply decides nothing, the delivery is acked or nacked as AckCommandErrors says for the handler's outcome (tolerated-reply-loss-settlement); with AckCommandErrors=true the handler runs exactly 1 + (untolerated reply-publish failures) times; when callers wait for ever at quiescence the settlements are judged first (a wrongly acked command explains the missing replies of its redeliveries); " +
 			"after cancel / cancellation of the caller's context (or, when ListenForReplyTimeout is configured or the caller's context has a near deadline, after that alone: such callers never end the request themselves; a reading caller must then see the channel closed - timeout-not-honoured / context-end-not-honoured when it reads for ever at quiescence, the 1 h deadline still pending) and at quiescence OnListenForReplyFinished ran exactly once per request and no listener goroutine remains - checked before the harness touches the reply channel of callers that stopped reading - and then the reply channel is observed closed; for a request whose send failed the same is demanded per started listener (a decorator around the backend handed to SendWith* counts the listeners started and keeps their reply channels): OnListenForReplyFinished ran as often as listeners were started (listener-not-finished-after-failed-send) and the channel the caller never got is closed (reply-channel-not-closed-after-failed-send). " +
@@ -657,6 +760,30 @@ func run(e *vlib.Env) vlib.Result {
 	}
 	if faulted > 0 {
 		res.Class += "/send-faults"
+	}
+	// Error VALUES (own PRNG stream derived from (seed, case index): the earlier dimensions of a case are unchanged): 35% of the
+	// handled commands get a failing handler (if they had none: 1..2 failures) whose error is / wraps / claims to be a sentinel
+	// (errValueKinds); with AckCommandErrors=true 30% of those fail on EVERY invocation (the error is acked: one invocation, one
+	// error reply - were such an error nacked, the redelivery loop would never end: runaway-redelivery).
+	rVal := vlib.NewRand(e.Seed, "C18/error-values", e.Idx)
+	errValueCmds, alwaysFailing := 0, 0
+	for _, c := range callers {
+		pick, kind, addFails, always := rVal.Chance(0.35), errValueKinds[rVal.Intn(len(errValueKinds))], rVal.Range(1, 2), rVal.Chance(0.3)
+		if !pick || c.noReply || c.unsent {
+			continue
+		}
+		c.errKind = kind
+		if c.fails == 0 {
+			c.fails = addFails
+		}
+		if ackErrors && always {
+			c.fails = 99
+			alwaysFailing++
+		}
+		errValueCmds++
+	}
+	if errValueCmds > 0 {
+		res.Class += "/error-values"
 	}
 	// Reply-publish faults x ReplyPublishErrorHandler x handler outcome (drawn from the dimension's own stream): the reply publisher
 	// rejects the reply of the scripted handler attempts (any of the first three, per handler with fan-out; the earlier dimension
@@ -1287,6 +1414,8 @@ func run(e *vlib.Env) vlib.Result {
 	res.Count("replies_read_late", readLate)
 	res.Count("relying_on_timeout_with_far_deadline", relyFar)
 	res.Count("send_faults_scripted", faulted)
+	res.Count("commands_whose_handler_error_is_a_sentinel_value", errValueCmds)
+	res.Count("commands_failing_on_every_invocation_with_AckCommandErrors", alwaysFailing)
 	res.Count("send_fault_retries", retried)
 	res.Count("reply_channels_seen_closed_after_failed_send", closedAfterFault)
 	res.Count("listeners_still_running_after_send_panic_until_context_end", panicKept)
